@@ -781,6 +781,43 @@ CT_NEED = {"keygen": "ScalarmultBaseNiels", "generatekey": "ScalarmultBaseNiels"
            "signph": "ScalarmultBaseNiels", "x25519base": "ScalarmultBaseNiels", "scalarbasemult": "ScalarmultBaseNiels", "edpriv": "EdPrivateKeyToX25519", "seed": None, "equal": None}
 
 
+def count_overlay():
+    """Rewrites every library source file with `go tool cover -mode=count` (one counter array per file, each
+    registering itself in its package's VerifCovTable); returns the overlay file for `go build -overlay`."""
+    ovdir = os.path.join(BUILD, repo_tag(), "cov-ov")
+    shutil.rmtree(ovdir, ignore_errors=True)
+    os.makedirs(ovdir, exist_ok=True)
+    repl = {}
+    n = 0
+    for rel in ("", "extra/x25519", "internal/curve25519", "internal/ge25519", "internal/modm"):
+        d = os.path.join(REPO, rel)
+        pkg = None
+        for f in sorted(os.listdir(d)):
+            if not f.endswith(".go") or f.endswith("_test.go"):
+                continue
+            src = os.path.join(d, f)
+            var = "VerifCov_%d" % n
+            n += 1
+            p = subprocess.run(["go", "tool", "cover", "-mode=count", "-var=" + var, src], env=goenv(), stdout=subprocess.PIPE, stderr=subprocess.PIPE, text=True)
+            if p.returncode != 0:
+                raise BuildError("go tool cover failed on %s: %s" % (src, p.stderr[-500:]))
+            m = re.search(r"^package\s+(\w+)", p.stdout, re.M)
+            pkg = m.group(1)
+            body = p.stdout + "\nfunc init() { verifCovRegister(%s, %s.Count[:], %s.Pos[:]) }\n" % (json.dumps(os.path.join(rel, f)), var, var)
+            dst = os.path.join(ovdir, (rel.replace("/", "_") or "root") + "__" + f)
+            open(dst, "w").write(body)
+            repl[src] = dst
+        reg = os.path.join(ovdir, (rel.replace("/", "_") or "root") + "__verifcov_reg.go")
+        open(reg, "w").write("package %s\n\n// VerifCovEntry is one instrumented source file: its block counters and block positions.\n"
+                             "type VerifCovEntry struct {\n\tFile  string\n\tCount []uint32\n\tPos   []uint32\n}\n\n"
+                             "var VerifCovTable []VerifCovEntry\n\nfunc verifCovRegister(f string, c, p []uint32) {\n"
+                             "\tVerifCovTable = append(VerifCovTable, VerifCovEntry{f, c, p})\n}\n" % pkg)
+        repl[os.path.join(d, "verifcov_reg.go")] = reg
+    ov = os.path.join(ovdir, "overlay.json")
+    json.dump({"Replace": repl}, open(ov, "w"), indent=1)
+    return ov
+
+
 def ct_cases(seed, thorough, slow=False):
     import random
     rnd = random.Random(seed * 7 + 20)
@@ -802,7 +839,7 @@ def ct_cases(seed, thorough, slow=False):
     L = 2 ** 252 + 27742317777372353535851937790883648493
     DOM = b"SigEd25519 no Ed25519 collisions"
 
-    def nonce(seed, op):
+    def nonce(seed, op, raw=False):
         h = hashlib.sha512(seed).digest()
         if op == "signctx":
             pre = DOM + bytes([0, len(b"some context")]) + b"some context"
@@ -812,7 +849,8 @@ def ct_cases(seed, thorough, slow=False):
             m = hashlib.sha512(pub).digest()
         else:
             pre, m = b"", pub
-        return int.from_bytes(hashlib.sha512(pre + h[32:] + m).digest(), "little") % L
+        v = int.from_bytes(hashlib.sha512(pre + h[32:] + m).digest(), "little")
+        return v if raw else v % L
 
     def scalar_a(seed):
         h = bytearray(hashlib.sha512(seed).digest()[:32])
@@ -830,14 +868,18 @@ def ct_cases(seed, thorough, slow=False):
     targeted = {}
     for op in ("sign", "signctx", "signph"):
         t = [short(lambda sd: nonce(sd, op), 248, 400), short(lambda sd: nonce(sd, op), 244, 4000)]
+        # the unreduced 64-byte nonce digest with a zero top byte (length-dependent handling before the reduction)
+        t.append(short(lambda sd: nonce(sd, op, raw=True), 504, 6000))
         if thorough:
             t.append(short(lambda sd: nonce(sd, op), 236, 300000))
+            t.append(short(lambda sd: nonce(sd, op, raw=True), 496, 600000))
         targeted[op] = [x for x in t if x]
     ta = [short(scalar_a, 248, 400), short(scalar_a, 244, 4000)]
     if thorough:
         ta.append(short(scalar_a, 236, 300000))
     for op in ("keygen", "generatekey"):
         targeted[op] = [x for x in ta if x]
+    ct_cases.last = {"ref": ref, "pub": pub, "targeted": targeted}
     cases = []
     ops = CT_OPS32
     for op in ops:
@@ -887,12 +929,14 @@ def engine_ct(prop, tier, seed, spec):
     plan = {}
     pyenv = goenv({"VERIF_CT_TMP": os.environ["VERIF_CT_TMP"]})
     for cfg, binp in bins.items():
-        slow = CONFIGS[cfg]["env"].get("GOARCH") == "386"
+        slow = CONFIGS[cfg]["env"].get("GOARCH") == "386" or cfg in spec.get("reduced", {}).get(tier, [])
         for op, pairs, pub in ct_cases(seed, thorough, slow):
             for k, (a, b) in enumerate(pairs):
                 out = os.path.join(wdir, "%s-%s-%d.pkl" % (cfg, op, k))
+                # the unmeasured warm-up call uses the reference secrets, so that the reference execution repeats
+                # its secret and every other execution changes it (a memo keyed by secret material shows)
                 jobs.append({"cfg": cfg, "op": op, "k": k, "out": out, "log": out + ".log", "env": pyenv,
-                             "args": [sys.executable, os.path.join(VERIF, "tools", "cttrace.py"), "trace", binp, out, op, a.hex(), b.hex(), pub.hex()]})
+                             "args": [sys.executable, os.path.join(VERIF, "tools", "cttrace.py"), "trace", binp, out, op, a.hex(), b.hex(), pub.hex(), pairs[0][0].hex(), pairs[0][1].hex()]})
                 plan.setdefault((cfg, op), []).append((k, a, b, pub, out))
     res = run_shards(jobs, spec.get("timeout", {}).get(tier, 1800))
     bad_jobs = {(j["cfg"], j["op"], j["k"]): (st, rc) for j, st, rc in res if st != "ok"}
@@ -911,7 +955,7 @@ def engine_ct(prop, tier, seed, spec):
             continue
         ref = traces[0]
         need = CT_NEED.get(op)
-        if need and not any(need in f for f in ref["funcs"]):
+        if need and not any(any(need in f for f in t["funcs"]) for t in traces.values()):
             agg.inconclusive.append("%s %s: traced window does not contain %s" % (cfg, op, need))
             continue
         agg.classes["traces/%s/%s" % (cfg, op)] = len(traces)
@@ -943,8 +987,8 @@ def engine_ct(prop, tier, seed, spec):
                     return ("control-flow", x.get("index"), x.get("a"), x.get("b"))
                 return (x.get("kind"), x.get("index"), x.get("at"))  # raw stack/heap addresses vary from process to process
             for _ in range(2):
-                t1 = cttrace.trace(binp, [op, a0.hex(), b0.hex(), pub.hex()])
-                t2 = cttrace.trace(binp, [op, a.hex(), b.hex(), pub.hex()])
+                t1 = cttrace.trace(binp, [op, a0.hex(), b0.hex(), pub.hex(), a0.hex(), b0.hex()])
+                t2 = cttrace.trace(binp, [op, a.hex(), b.hex(), pub.hex(), a0.hex(), b0.hex()])
                 d2 = cttrace.compare(binp, t1, t2)
                 if d2 is None:
                     fresh_ref = t1
@@ -966,7 +1010,86 @@ def engine_ct(prop, tier, seed, spec):
     agg.classes["traces-total"] = ntr
     for cfg in bins:
         agg.configs[cfg] = {"evaluations": sum(v for k, v in agg.classes.items() if k.startswith("traces/%s/" % cfg)), "shards": 1}
-    return finish(agg, spec, {"tool": "valgrind --tool=lackey --trace-mem=yes", "window": "second markBegin..markEnd (first pair is a warm-up call with a dummy secret)"})
+    ntrace_evals = agg.evaluations
+    run_ctcount(agg, prop, tier, seed, spec, wdir)
+    agg.classes["evaluations/trace-pairs"] = ntrace_evals
+    agg.classes["evaluations/block-count-vectors"] = agg.evaluations - ntrace_evals
+    if ntrace_evals < spec.get("trace_floor", 1) and not os.environ.get("VERIF_ONLY_CONFIGS"):
+        agg.inconclusive.append("only %d trace pairs were compared, floor is %d" % (ntrace_evals, spec.get("trace_floor", 1)))
+    return finish(agg, spec, {"tool": "valgrind --tool=lackey --trace-mem=yes; go tool cover -mode=count block counters",
+                              "window": "second markBegin..markEnd (the first pair is an unmeasured call with the reference secret)"})
+
+
+def ctcount_secrets(seed, thorough, wdir):
+    ct_cases(seed, thorough)
+    last = ct_cases.last
+    sf = os.path.join(wdir, "targeted-secrets.txt")
+    with open(sf, "w") as f:
+        for op, lst in last["targeted"].items():
+            for x in lst:
+                f.write("%s %s\n" % (op, x.hex()))
+    return sf, last["ref"], last["pub"]
+
+
+def run_ctcount(agg, prop, tier, seed, spec, wdir):
+    """C20, second monitor: per-basic-block execution counts of the library (sources rewritten by
+    `go tool cover -mode=count`, injected by overlay) must not depend on the secret."""
+    thorough = tier == "thorough"
+    cfgs = spec.get("count_configs", {}).get(tier, [])
+    if not cfgs:
+        return
+    try:
+        ov = count_overlay()
+    except BuildError as e:
+        log(str(e))
+        agg.inconclusive.append("block-count monitor: source rewriting failed")
+        return
+    sf, ref, pub = ctcount_secrets(seed, thorough, wdir)
+    nsh, n = (16, 20000) if thorough else (8, 1500)
+    jobs = []
+    for cfg in cfgs:
+        try:
+            binp = build(cfg, "ctcount", overlay=ov, extra_tags=("verifcov",), suffix="-cov")
+        except BuildError as e:
+            log(str(e))
+            agg.inconclusive.append("%s: build of the block-count victim failed" % cfg)
+            continue
+        nn = n // 4 if CONFIGS[cfg]["env"].get("GOARCH") == "386" else n
+        for sh in range(nsh):
+            out = os.path.join(wdir, "count-%s-%d.json" % (cfg, sh))
+            jobs.append({"cfg": cfg, "out": out, "log": out + ".log",
+                         "args": [binp, "-config", cfg, "-seed", str(seed), "-shard", str(sh), "-n", str(nn), "-secrets", sf, "-pub", pub.hex(), "-ref", ref.hex(), "-out", out]})
+    for j, st, rc in run_shards(jobs, spec.get("timeout", {}).get(tier, 1800)):
+        if st == "timeout":
+            k = salvage(agg, j)
+            agg.inconclusive.append("%s block-count shard watchdog fired (%s)" % (j["cfg"], os.path.basename(j["out"])))
+            continue
+        if os.path.exists(j["out"]):
+            agg.add_record(j["out"], j["cfg"] + "/count")
+        if st == "crash":
+            salvage(agg, j)
+            agg.violations.append(crash_violation(prop, j["cfg"], j, st, rc))
+
+
+def replay_ctcount(path, v, cfg, c):
+    ov = count_overlay()
+    cfg = cfg.split("/")[0]
+    binp = build(cfg if cfg in CONFIGS else "K0", "ctcount", overlay=ov, extra_tags=("verifcov",), suffix="-cov")
+    sf = path + ".secrets"
+    open(sf, "w").write("%s %s\n" % (c["ct_op"], c["secret_b"]))
+    out = path + ".replay.json"
+    if c["ct_op"] == "equal":
+        log("replay of an 'equal' block-count case re-runs the whole equal workload")
+        args = [binp, "-config", cfg, "-seed", "1", "-n", "400", "-ops", "equal", "-pub", c["public"], "-ref", c["secret_a"][:64], "-out", out]
+    else:
+        args = [binp, "-config", cfg, "-seed", "1", "-n", "0", "-ops", c["ct_op"], "-secrets", sf, "-pub", c["public"], "-ref", c["secret_a"], "-out", out]
+    subprocess.run(args, env=goenv())
+    r = json.load(open(out))
+    if r.get("n_violations"):
+        log("REPLAY-VIOLATION property=%s %s" % (v.get("property"), r["violations"][0]["what"][:500]))
+        return 1
+    log("REPLAY-OK: block counts do not depend on the secret on this tree")
+    return 0
 
 
 def replay_ct(path, v, cfg, spec):
@@ -975,8 +1098,10 @@ def replay_ct(path, v, cfg, spec):
     c = v.get("case", {})
     binp = build(cfg if cfg in CONFIGS else "K0", "ctvictim", static=True)
     os.environ.update(GOENV)
-    t1 = cttrace.trace(binp, [c["ct_op"], c["secret_a"], c["secret_a2"], c["public"]])
-    t2 = cttrace.trace(binp, [c["ct_op"], c["secret_b"], c["secret_b2"], c["public"]])
+    if c.get("op") == "ctcount":
+        return replay_ctcount(path, v, cfg, c)
+    t1 = cttrace.trace(binp, [c["ct_op"], c["secret_a"], c["secret_a2"], c["public"], c["secret_a"], c["secret_a2"]])
+    t2 = cttrace.trace(binp, [c["ct_op"], c["secret_b"], c["secret_b2"], c["public"], c["secret_a"], c["secret_a2"]])
     d = cttrace.compare(binp, t1, t2)
     if d is not None:
         log("REPLAY-VIOLATION property=%s traces diverge: %s" % (v.get("property"), json.dumps(d)[:500]))
@@ -1036,10 +1161,13 @@ SPECS = {
                             "monitor wrappers are generated from the function signatures of the current tree (go/ast) and injected with -overlay; a routine whose wrapper cannot be generated is reported inconclusive",
                             "direct workloads stay inside the caller-reachable operand forms (R, one level of add/sub, after-basic forms); the operand envelope observed on API executions is printed next to the driven one",
                             "only executions the workload produced are judged"]},
-    "C20": {"engine": "ct", "configs": {"quick": ["K0", "K1", "K2"], "thorough": ["K0", "K1", "K2", "K3", "K4", "K5", "K6"]}, "floor": 60,
-            "rule": "one evaluation = one pair (reference secret, other secret) of lackey traces of the same operation with identical public inputs, compared on PC sequence, memory-op shape, static addresses and per-page-pair constant offsets of dynamic addresses; every pair is non-trivial (secrets differ); distinct = (config, op, secret pair)",
+    "C20": {"engine": "ct", "configs": {"quick": ["K0", "K1", "K2", "K5"], "thorough": ["K0", "K1", "K2", "K3", "K4", "K5", "K6"]}, "floor": 60, "trace_floor": 60,
+            "reduced": {"quick": ["K5"]}, "count_configs": {"quick": ["K0", "K1", "K2", "K3", "K4", "K5", "K6"], "thorough": ["K0", "K1", "K2", "K3", "K4", "K5", "K6"]},
+            "rule": "two monitors. (1) trace pairs: one evaluation = one pair (reference secret, other secret) of lackey traces of the same operation with identical public inputs, compared on PC sequence, memory-op shape, static addresses and per-page-pair constant offsets of dynamic addresses (classes_observed['evaluations/trace-pairs']). (2) block-count vectors: one evaluation = one execution of an operation with one secret in the build whose library sources carry `go tool cover -mode=count` counters, its vector of per-basic-block execution counts compared with the vector of the reference secret (classes_observed['evaluations/block-count-vectors']). In both, the unmeasured previous call used the reference secret. Every evaluation is non-trivial (the secret differs from the reference, or repeats it after itself); distinct = (config, op, secret pair)",
             "assumptions": ["valgrind 3.19 lackey reports every executed guest instruction and memory access of the static Go binary", "Go runtime housekeeping (allocator, scheduler, GC, other threads) is excluded from the window by symbol; library code inlined into excluded symbols does not occur",
-                            "data-dependent instruction latency is not visible in a PC/address trace", "only amd64 and 386 back ends that execute here"]},
+                            "data-dependent instruction latency is not visible in a PC/address trace", "only amd64 and 386 back ends that execute here",
+                            "the block-count monitor sees Go source basic blocks of the library packages only: not addresses, not assembly bodies, not branches the compiler introduces, not callees outside the module (those are the trace monitor's, on fewer secrets)",
+                            "a prologue re-execution is removed from a trace only when runtime.morestack ran between the two executions of the function's entry PC"]},
     "C09": {"engine": "api+layers", "configs": {"quick": [("K0", 1), ("K2", 0.25)], "thorough": [("K0", 1), ("K2", 0.1), ("K6", 0.1)]}, "inside_configs": {"quick": [("K0", 1)], "thorough": [("K0", 1), ("K2", 0.3)]},
             "floor": 1500, "rule": API_RULE_VERIFY + "; plus every isSmallOrderVartime call of the monitored build judged against 'undecodable or [8]P = identity'"},
     "C10": {"engine": "apimon", "configs": {"quick": [("K0", 1), ("K2", 0.25)], "thorough": [("K0", 1), ("K2", 0.25), ("K6", 0.1)]}, "floor": 15000,
@@ -1085,7 +1213,7 @@ def main(argv):
         # sensitivity campaigns (tools/mutate.py) restrict a check to some build configurations
         keep = set(only.split(","))
         spec = dict(spec)
-        for key in ("configs", "inside_configs"):
+        for key in ("configs", "inside_configs", "count_configs"):
             if key in spec:
                 spec[key] = {t: [c for c in v if (c[0] if isinstance(c, tuple) else c).split("+")[0] in keep] for t, v in spec[key].items()}
         spec["floor"] = 1
